@@ -187,6 +187,7 @@ def run(eng: Engine, ck: Check):
 
     # ---- R-C03-LOCKED
     wraps = defs.state_lock_wrapping(eng, ck, 'R-C03-LOCKED')
+    defs.state_operations_are_methods(eng, ck, 'R-C03-LOCKED')
     defs.lock_wrapper_forwards_arguments(eng, ck, 'R-C03-DISPATCH', 'a request decided by the current state is the request that was made: same reason, same flags')
     for nm in ('__init__', '__setstate__'):
         m = base.methods.get(nm)
